@@ -647,7 +647,8 @@ impl<'a> Sieve<'a> {
             let p = self.fbase.primes[pidx] as u16;
             for idx in 0..rlen {
                 let r = res[idx];
-                if r == off || r == off + p {
+                // Compare in u32: off may be OFFSET_NONE and off + p does not fit in u16.
+                if r == off || r as u32 == off as u32 + p as u32 {
                     facs[idx].push(pidx)
                 }
             }
